@@ -192,6 +192,15 @@ def generate(run_seed):
             "scenario": scen, "script": script, "policy": policy, "schedule": None}
     if st.get("swarm").random() < 0.04:
         case["extended"] = True
+        xr = st.get("extended")
+        if xr.random() < 0.5:
+            # the two kinds of handler keep separate tables and share the cache file of a URL:
+            # one loads a resource in the background, the other is asked for it at once
+            u = xr.choice(roots)
+            pair = xr.choice([["t_deferred_load", "load"], ["deferred_load", "t_load"],
+                              ["t_deferred_load", "t2_load"]])
+            case["script"] = [[pair[0], u], [pair[1], u]] + script[:2]
+            scen["cache"][u] = "empty"
     return case
 
 
